@@ -8,11 +8,19 @@ fn mk_let(x: String, e: Box<G>, body: Box<G>) -> G {
     }
 }
 
+/// the type of two branches: a component one branch leaves open (`None`, `&[]`, a diverging branch) is taken from
+/// the other
 fn pick_ty(a: Ty, b: Ty) -> Ty {
-    if a == Ty::Never {
-        b
-    } else {
-        a
+    match (a, b) {
+        (Ty::Never, b) => b,
+        (a, Ty::Never) => a,
+        (Ty::Option(x), Ty::Option(y)) => Ty::Option(Box::new(pick_ty(*x, *y))),
+        (Ty::List(x), Ty::List(y)) => Ty::List(Box::new(pick_ty(*x, *y))),
+        (Ty::Tuple(xs), Ty::Tuple(ys)) if xs.len() == ys.len() => {
+            Ty::Tuple(xs.into_iter().zip(ys).map(|(x, y)| pick_ty(x, y)).collect())
+        }
+        (Ty::Result(a1, b1), Ty::Result(a2, b2)) => Ty::Result(Box::new(pick_ty(*a1, *a2)), Box::new(pick_ty(*b1, *b2))),
+        (a, _) => a,
     }
 }
 
@@ -59,6 +67,116 @@ impl Env {
 
 type BlockFn<'f, 'u> = dyn FnMut(&mut Tr<'u>, &[Stmt], &Env) -> R<(G, Ty)> + 'f;
 
+/// the plain identifiers assigned (`x = ..`, `x += ..`) anywhere in an expression (closures and items excluded)
+fn assigned_idents(e: &Expr) -> BTreeSet<String> {
+    struct V(BTreeSet<String>);
+    impl<'ast> syn::visit::Visit<'ast> for V {
+        fn visit_expr(&mut self, e: &'ast Expr) {
+            let target = match e {
+                Expr::Assign(a) => Some(&*a.left),
+                Expr::Binary(b) if matches!(b.op, BinOp::AddAssign(_) | BinOp::SubAssign(_) | BinOp::MulAssign(_)) => Some(&*b.left),
+                _ => None,
+            };
+            if let Some(Expr::Path(p)) = target {
+                if let Some(i) = p.path.get_ident() {
+                    self.0.insert(i.to_string());
+                }
+            }
+            syn::visit::visit_expr(self, e);
+        }
+        fn visit_expr_closure(&mut self, _: &'ast syn::ExprClosure) {}
+        fn visit_item(&mut self, _: &'ast Item) {}
+    }
+    let mut v = V(BTreeSet::new());
+    syn::visit::Visit::visit_expr(&mut v, e);
+    v.0
+}
+
+fn contains_continue_expr(e: &Expr) -> bool {
+    struct V(bool);
+    impl<'ast> syn::visit::Visit<'ast> for V {
+        fn visit_expr_continue(&mut self, _: &'ast syn::ExprContinue) {
+            self.0 = true;
+        }
+        fn visit_expr_closure(&mut self, _: &'ast syn::ExprClosure) {}
+        fn visit_expr_for_loop(&mut self, _: &'ast syn::ExprForLoop) {}
+        fn visit_expr_while(&mut self, _: &'ast syn::ExprWhile) {}
+        fn visit_expr_loop(&mut self, _: &'ast syn::ExprLoop) {}
+        fn visit_item(&mut self, _: &'ast Item) {}
+    }
+    let mut v = V(false);
+    syn::visit::Visit::visit_expr(&mut v, e);
+    v.0
+}
+
+fn type_has_infer(t: &Type) -> bool {
+    struct V(bool);
+    impl<'ast> syn::visit::Visit<'ast> for V {
+        fn visit_type_infer(&mut self, _: &'ast syn::TypeInfer) {
+            self.0 = true;
+        }
+    }
+    let mut v = V(false);
+    syn::visit::Visit::visit_type(&mut v, t);
+    v.0
+}
+
+fn base_k<'a, 'b>(k: &'b K<'a>) -> &'b K<'a> {
+    match k {
+        K::Then(_, _, k2) => base_k(k2),
+        other => other,
+    }
+}
+
+fn vars_tuple(names: &[String]) -> String {
+    if names.len() == 1 {
+        names[0].clone()
+    } else {
+        format!("({})", names.join(", "))
+    }
+}
+fn vars_binder(names: &[String]) -> String {
+    if names.len() == 1 {
+        names[0].clone()
+    } else {
+        format!("'({})", names.join(", "))
+    }
+}
+
+/// `x.send(Enum::Variant ..)` somewhere in a statement: the variant
+fn sent_event(s: &Stmt, events_enum: &str) -> Option<String> {
+    struct V<'e>(&'e str, Option<String>);
+    impl<'e, 'ast> syn::visit::Visit<'ast> for V<'e> {
+        fn visit_expr_method_call(&mut self, m: &'ast syn::ExprMethodCall) {
+            if m.method == "send" || m.method == "send_blocking" || m.method == "try_send" {
+                if let Some(a) = m.args.first() {
+                    let path = match a {
+                        Expr::Struct(st) => Some(&st.path),
+                        Expr::Call(c) => match &*c.func {
+                            Expr::Path(p) => Some(&p.path),
+                            _ => None,
+                        },
+                        Expr::Path(p) => Some(&p.path),
+                        _ => None,
+                    };
+                    if let Some(p) = path {
+                        let segs: Vec<String> = p.segments.iter().map(|s| s.ident.to_string()).collect();
+                        if segs.len() >= 2 && segs[segs.len() - 2] == self.0 {
+                            self.1 = Some(segs[segs.len() - 1].clone());
+                        }
+                    }
+                }
+            }
+            syn::visit::visit_expr_method_call(self, m);
+        }
+        fn visit_expr_closure(&mut self, _: &'ast syn::ExprClosure) {}
+        fn visit_item(&mut self, _: &'ast Item) {}
+    }
+    let mut v = V(events_enum, None);
+    syn::visit::Visit::visit_stmt(&mut v, s);
+    v.1
+}
+
 impl<'u> Tr<'u> {
     fn macro_ignorable(&self, mac: &syn::Macro) -> bool {
         let name = mac.path.segments.last().map(|s| s.ident.to_string()).unwrap_or_default();
@@ -77,6 +195,18 @@ impl<'u> Tr<'u> {
     fn log_only_expr(&self, e: &Expr) -> bool {
         match e {
             Expr::Macro(m) => self.macro_ignorable(&m.mac),
+            // the update of a captured counter the request declares as dropped
+            Expr::Assign(_) | Expr::Binary(_) => {
+                let target = match e {
+                    Expr::Assign(a) => Some(&*a.left),
+                    Expr::Binary(b) if matches!(b.op, BinOp::AddAssign(_)) => Some(&*b.left),
+                    _ => None,
+                };
+                match target {
+                    Some(Expr::Path(p)) => p.path.get_ident().map(|i| self.req_ignore_assign.iter().any(|n| i == n)).unwrap_or(false),
+                    _ => false,
+                }
+            }
             Expr::Block(b) if b.label.is_none() => b.block.stmts.iter().all(|s| self.log_only_stmt(s)),
             Expr::If(i) => {
                 i.then_branch.stmts.iter().all(|s| self.log_only_stmt(s))
@@ -100,6 +230,35 @@ impl<'u> Tr<'u> {
                 None => self.err(sp, "internal: state continuation without a threaded record"),
             },
             K::Then(rest, env2, k2) => self.block(rest, env2, k2),
+            K::Vars(names) => {
+                let tys: Vec<Ty> = names
+                    .iter()
+                    .map(|n| env.vars.iter().find(|(_, c, _)| c == n).map(|(_, _, t)| t.clone()).unwrap_or(Ty::Never))
+                    .collect();
+                let t = if tys.len() == 1 { tys[0].clone() } else { Ty::Tuple(tys) };
+                Ok((raw(vars_tuple(names)), t))
+            }
+        }
+    }
+
+    /// the value of a leaf of a closure_value request: (events sent on the way, value)
+    fn leaf_wrap(&self, env: &Env, g: G, t: Ty) -> (G, Ty) {
+        if env.events_enum.is_none() {
+            return (g, t);
+        }
+        (raw(format!("({}, {})", coq_string_list(&env.events), g.render(4))), Ty::Tuple(vec![Ty::List(Box::new(Ty::Str)), t]))
+    }
+
+    /// a statement made only of calls of `ignore_methods` on a local (`testcase.set_classname(..).set_time(..);`)
+    fn ignorable_method_stmt(&self, e: &Expr) -> bool {
+        match e {
+            Expr::MethodCall(m) => {
+                self.spec.ignore_methods.iter().any(|i| m.method == i)
+                    && (matches!(&*m.receiver, Expr::Path(p) if p.path.get_ident().is_some()) || self.ignorable_method_stmt(&m.receiver))
+            }
+            Expr::Paren(p) => self.ignorable_method_stmt(&p.expr),
+            Expr::Try(t) => self.ignorable_method_stmt(&t.expr),
+            _ => false,
         }
     }
 
@@ -108,6 +267,15 @@ impl<'u> Tr<'u> {
             None => return self.finish(env, k, Span::call_site()),
             Some(x) => x,
         };
+        if let Some(en) = &env.events_enum {
+            if matches!(s, Stmt::Local(_) | Stmt::Expr(_, Some(_))) {
+                if let Some(v) = sent_event(s, en) {
+                    let mut env2 = env.clone();
+                    env2.events.push(v);
+                    return self.block(rest, &env2, k);
+                }
+            }
+        }
         match s {
             Stmt::Local(l) => {
                 let sp = l.span();
@@ -121,6 +289,8 @@ impl<'u> Tr<'u> {
                     None => return self.err(sp, "`let` without a value"),
                 };
                 let hint = match annot {
+                    // (`Vec<_>`: nothing to learn from the annotation)
+                    Some(t) if type_has_infer(t) => None,
                     Some(t) => Some(self.ty(t, env.self_ty.as_deref())?),
                     None => None,
                 };
@@ -158,6 +328,14 @@ impl<'u> Tr<'u> {
                             Pat::Tuple(_) => format!("'{}", self.pattern(pat, &t, &mut env2)?),
                             _ => return self.err(sp, "unsupported pattern in `let`"),
                         };
+                        // `let mut x = <value that is not a record>`: x is threaded through assignments, `if`s and loops
+                        if let Pat::Ident(pi) = pat {
+                            if pi.mutability.is_some() && !matches!(t, Ty::Struct(_)) {
+                                let n = pi.ident.to_string();
+                                env2.vars.retain(|(r, _, _)| *r != n);
+                                env2.vars.push((n.clone(), local_name(&n), t.clone()));
+                            }
+                        }
                         let (body, bt) = self.block(rest, &env2, k)?;
                         Ok((mk_let(binder, Box::new(g), Box::new(body)), bt))
                     }
@@ -205,7 +383,7 @@ impl<'u> Tr<'u> {
                 }
                 if rest.is_empty() && sm.semi_token.is_none() {
                     if let K::Value(_) = k {
-                        return self.macro_expr(&sm.mac, env, sm.span());
+                        if let K::Value(h) = k { return self.macro_expr(&sm.mac, env, h.as_ref(), sm.span()); }
                     }
                 }
                 self.err(sm.span(), format!("unsupported macro statement `{}!`", norm(&sm.mac.path)))
@@ -239,18 +417,24 @@ impl<'u> Tr<'u> {
                 self.build_match(m, env, &mut |tr, body, env2| tr.tail_value(body, env2, h.as_ref()))
             }
             Expr::Block(b) if b.label.is_none() => self.block(&b.block.stmts, env, &K::Value(hint.cloned())),
+            // the value of a closure that returns a future is what the future returns
+            Expr::Async(a) if env.events_enum.is_some() => self.block(&a.block.stmts, env, &K::Value(hint.cloned())),
             Expr::Return(r) => match &r.expr {
                 Some(x) => {
                     if env.mutating {
                         return self.err(r.span(), "`return value` in a `&mut self` method");
                     }
                     let ret = env.ret.clone();
-                    let (g, _) = self.expr(x, env, ret.as_ref())?;
+                    let (g, t) = self.expr(x, env, ret.as_ref())?;
+                    let (g, _) = self.leaf_wrap(env, g, t);
                     Ok((g, Ty::Never))
                 }
                 None => Ok((raw("tt"), Ty::Never)),
             },
-            _ => self.expr(e, env, hint),
+            _ => {
+                let (g, t) = self.expr(e, env, hint)?;
+                Ok(self.leaf_wrap(env, g, t))
+            }
         }
     }
 
@@ -341,7 +525,8 @@ impl<'u> Tr<'u> {
                         return self.err(sp, "`return value` in a `&mut self` method");
                     }
                     let ret = env.ret.clone();
-                    self.expr(x, env, ret.as_ref())
+                    let (g, t) = self.expr(x, env, ret.as_ref())?;
+                    Ok(self.leaf_wrap(env, g, t))
                 }
                 None => {
                     if env.mutating {
@@ -365,12 +550,57 @@ impl<'u> Tr<'u> {
                 let (body, bt) = self.block(rest, env, k)?;
                 Ok((G::Match(Box::new(g), vec![("inl _".into(), body), ("inr e".into(), raw("inr e"))]), bt))
             }
+            Expr::Continue(c) if env.loop_body && c.label.is_none() => {
+                // the body of the loop is translated on its own: `continue` ends it with the current state
+                let base = base_k(k).clone();
+                self.finish(env, &base, sp)
+            }
             Expr::Assign(_) | Expr::Binary(_) => {
                 let (target, rhs, add) = match e {
                     Expr::Assign(a) => (&*a.left, &*a.right, false),
                     Expr::Binary(b) if matches!(b.op, BinOp::AddAssign(_)) => (&*b.left, &*b.right, true),
                     _ => return self.err(sp, format!("unsupported statement `{}`", norm(e))),
                 };
+                if let Expr::Path(p) = target {
+                    if let Some(id) = p.path.get_ident() {
+                        let n = id.to_string();
+                        if let Some((_, cn, vt)) = env.vars.iter().find(|(r, _, _)| *r == n).cloned() {
+                            let (r, rt) = self.expr(rhs, env, Some(&vt))?;
+                            let newv = if add {
+                                if vt != Ty::N {
+                                    return self.err(sp, "`+=` on a local that is not an unsigned integer");
+                                }
+                                app("N.add", vec![raw(cn.clone()), r])
+                            } else {
+                                r
+                            };
+                            // a local declared as `None` gets its type from the first assignment
+                            let mut env2 = env.clone();
+                            let merged = pick_ty(vt.clone(), rt);
+                            for v in env2.vars.iter_mut() {
+                                if v.0 == n {
+                                    v.2 = merged.clone();
+                                }
+                            }
+                            for b in env2.binds.iter_mut().rev() {
+                                if b.rust == n {
+                                    b.ty = merged.clone();
+                                    break;
+                                }
+                            }
+                            let (body, bt) = self.block(rest, &env2, k)?;
+                            return Ok((G::Let(cn, Box::new(newv), Box::new(body)), bt));
+                        }
+                        if env.ignore_assign.iter().any(|i| *i == n) {
+                            self.notes.push(format!(
+                                "{}:{}: the update of the captured counter `{n}` is dropped (it does not influence the translated value)",
+                                self.cur_file,
+                                sp.start().line
+                            ));
+                            return self.block(rest, env, k);
+                        }
+                    }
+                }
                 let fname = match target {
                     Expr::Field(f) if is_self_path(&f.base) => match &f.member {
                         Member::Named(i) => i.to_string(),
@@ -395,8 +625,91 @@ impl<'u> Tr<'u> {
                 let (body, bt) = self.block(rest, env, k)?;
                 Ok((mk_let("self".into(), Box::new(app(&setter, vec![newv, raw("self")])), Box::new(body)), bt))
             }
+            Expr::ForLoop(fl) if fl.label.is_none() => {
+                let assigned: Vec<String> = {
+                    let a = assigned_idents(e);
+                    env.vars.iter().filter(|(r, _, _)| a.contains(r)).map(|(_, c, _)| c.clone()).collect()
+                };
+                if assigned.is_empty() {
+                    return self.err(sp, "`for` loop that updates no threaded local");
+                }
+                let body_expr = Expr::Block(syn::ExprBlock { attrs: vec![], label: None, block: fl.body.clone() });
+                if contains_return_expr(&body_expr) || contains_continue_expr(&body_expr) || {
+                    struct B(bool);
+                    impl<'ast> syn::visit::Visit<'ast> for B {
+                        fn visit_expr_break(&mut self, _: &'ast syn::ExprBreak) {
+                            self.0 = true;
+                        }
+                        fn visit_expr_closure(&mut self, _: &'ast syn::ExprClosure) {}
+                        fn visit_item(&mut self, _: &'ast Item) {}
+                    }
+                    let mut b = B(false);
+                    syn::visit::Visit::visit_block(&mut b, &fl.body);
+                    b.0
+                } {
+                    return self.err(sp, "`for` loop with `return` / `break` / `continue` inside");
+                }
+                let (lg, lt) = self.expr(&fl.expr, env, None)?;
+                let elem = match lt {
+                    Ty::List(t) => *t,
+                    Ty::Option(t) => {
+                        // (an Option iterates over at most one element)
+                        let _ = t;
+                        return self.err(sp, "`for` over an Option");
+                    }
+                    other => return self.err(sp, format!("`for` over a value of type {}", other.coq())),
+                };
+                let mut env2 = env.clone();
+                let pb = match &*fl.pat {
+                    Pat::Tuple(_) => format!("'{}", self.pattern(&fl.pat, &elem, &mut env2)?),
+                    p => self.pattern(p, &elem, &mut env2)?,
+                };
+                let (bg, _) = self.block(&fl.body.stmts, &env2, &K::Vars(assigned.clone()))?;
+                let f = raw(format!(
+                    "(fun acc elem => let {} := acc in let {} := elem in\n      {})",
+                    vars_binder(&assigned),
+                    pb,
+                    bg.render(6)
+                ));
+                let fold = app("List.fold_left", vec![f, lg, raw(vars_tuple(&assigned))]);
+                let (body, bt) = self.block(rest, env, k)?;
+                Ok((G::Let(vars_binder(&assigned), Box::new(fold), Box::new(body)), bt))
+            }
+            Expr::MethodCall(_) if self.ignorable_method_stmt(e) => {
+                self.notes.push(format!(
+                    "{}:{}: statement dropped: only calls of ignore_methods ({})",
+                    self.cur_file,
+                    sp.start().line,
+                    {
+                        let t = norm(e);
+                        if t.len() > 60 { format!("{}...", &t[..60]) } else { t }
+                    }
+                ));
+                self.block(rest, env, k)
+            }
             Expr::If(_) | Expr::Match(_) => {
-                let has_ret = contains_return_expr(e);
+                // (a branch that sends an event is followed to the end of the closure like one that returns: the events
+                // are recorded per path)
+                let sends = match &env.events_enum {
+                    Some(en) => sent_event(&Stmt::Expr(e.clone(), None), en).is_some(),
+                    None => false,
+                };
+                let has_ret = contains_return_expr(e) || (env.loop_body && contains_continue_expr(e)) || sends;
+                let assigned: Vec<String> = {
+                    let a = assigned_idents(e);
+                    env.vars.iter().filter(|(r, _, _)| a.contains(r)).map(|(_, c, _)| c.clone()).collect()
+                };
+                if !has_ret && !assigned.is_empty() {
+                    // a transformer of the threaded locals it assigns
+                    let kk = K::Vars(assigned.clone());
+                    let (g, _) = match e {
+                        Expr::If(i) => self.build_if(i, env, &mut |tr, stmts, env2| tr.block(stmts, env2, &kk))?,
+                        Expr::Match(m) => self.build_match(m, env, &mut |tr, body, env2| tr.arm_stmts(body, env2, &kk))?,
+                        _ => unreachable!(),
+                    };
+                    let (body, bt) = self.block(rest, env, k)?;
+                    return Ok((G::Let(vars_binder(&assigned), Box::new(g), Box::new(body)), bt));
+                }
                 if !has_ret && self.log_only_expr(e) {
                     self.notes.push(format!(
                         "{}:{}: statement dropped: its branches only log (its conditions are not translated)",
